@@ -12,14 +12,14 @@ EXPLANATION = ("The REAL Markdown matcher runs under CrossHair (its run-time bui
                "among '*', '+', '-', none, '#', the gap and the step text; table indentation 0..8 with a symbolic white-space character and symbolic cells "
                "(GFM separator cells included); two back-ticked tags with symbolic names and gaps. Oracle written from MARKDOWN_WITH_GHERKIN.md as restated in the property")
 ASSUMPTIONS = ["line level only (the property says so); match_Comment / match_Empty of the Markdown matcher are outside the property", "title / step text <= 1 symbolic char (quick) / 2; tag names <= 2 chars",
-               "quick: dialect en (+ fr titles); thorough: 12 dialects - the remaining dialects are outside the explored bound of this check (their keyword tables are covered for the classic matcher by C05)"]
+               "quick: dialect en (+ fr titles); thorough: 6 dialects - the remaining dialects are outside the explored bound of this check (their keyword tables are covered for the classic matcher by C05)"]
 M = "harness.md"
-DIALECTS_T = ["en", "fr", "ht", "ja", "ar", "de", "ru", "zh-CN", "en-old", "sk", "hi", "he"]
+DIALECTS_T = ["en", "fr", "ht", "ja", "ar", "ru"]
 
 
 def bounds(tier):
     return {"quick": "dialect en: every title keyword x depth 0..7 x separator x title<=1 x 2 roles; every step keyword x 5 bullets x gap x text<=1; table indentation 0..8; two tags",
-            "thorough": "12 dialects, title / text <= 2"}[tier]
+            "thorough": "6 dialects (en with title / text <= 2)"}[tier]
 
 
 def conditions(tier):
@@ -30,9 +30,9 @@ def conditions(tier):
         nt = len({(c, k) for c in ("feature", "rule", "background", "scenario", "scenarioOutline", "examples") for k in table[d][c]})
         ns = sum(len(table[d][c]) for c in ("given", "when", "then", "and", "but"))
         for lo in range(0, nt, 2):
-            cs.append(Cond(M, "title_line", {"dialect": d, "lo": lo, "hi": lo + 2, "maxlen": 1 if q else 2, "ind": "" if lo % 4 else " "}, T=1200 if q else 4000, reach=["recognised"]))
+            cs.append(Cond(M, "title_line", {"dialect": d, "lo": lo, "hi": lo + 2, "maxlen": 2 if (not q and d == "en") else 1, "ind": "" if lo % 4 else " "}, T=1200 if q else 4000, reach=["recognised"]))
         for lo in range(0, ns, 3):
-            cs.append(Cond(M, "step_line", {"dialect": d, "lo": lo, "hi": lo + 3, "maxlen": 1 if q else 2}, T=1200 if q else 4000, reach=["recognised"]))
+            cs.append(Cond(M, "step_line", {"dialect": d, "lo": lo, "hi": lo + 3, "maxlen": 2 if (not q and d == "en") else 1}, T=1200 if q else 4000, reach=["recognised"]))
     if q:
         cs.append(Cond(M, "title_line", {"dialect": "en", "lo": 2, "hi": 3, "maxlen": 2}, T=1200, reach=["recognised"]))
         cs.append(Cond(M, "step_line", {"dialect": "en", "lo": 1, "hi": 2, "maxlen": 2}, T=1200, reach=["recognised"]))
